@@ -70,7 +70,7 @@ def _replay_batch(args):
 
 
 def run_g(chk, module, cfg, replay, *, nontrivial=None, sample_every=None,
-          workers=6, timeout=1500, extra_files=None, procs=12, batch=1500, tally=None, **kw):
+          workers=6, timeout=1500, extra_files=None, procs=12, batch=1500, tally=None, history_ok=False, **kw):
     """Explore with TLC, replay every emitted behaviour on the real code.
     `replay` and `nontrivial` must be module-level functions (they run in
     forked worker processes)."""
@@ -113,7 +113,12 @@ def run_g(chk, module, cfg, replay, *, nontrivial=None, sample_every=None,
                 chk.sample(sample)
             for d in bad:
                 if not d.pop("_reproduced"):
-                    raise MachineryError("disagreement not reproducible: %r" % (d,))
+                    if not history_ok:
+                        raise MachineryError("disagreement not reproducible: %r" % (repr(d)[:3000],))
+                    # the code under test is a function of its arguments (history_ok: the caller says so): the same
+                    # call giving another answer the second time is a disagreement in its own right
+                    d["clause"] = "%s (asked again with the same arguments the answer was another one)" % d.get("clause")
+                    d.setdefault("class", {})["depends_on_history"] = True
                 chk.disagree(d)
     finally:
         pool.terminate()
